@@ -1,6 +1,7 @@
 SPECIFICATION TraceSpec
 CONSTANTS
   CacheMerged = TRUE
+  OwnUnion = TRUE
   MaxRewrites = 1
 INVARIANT V
 CONSTRAINT Report
